@@ -36,6 +36,9 @@ func History(t *testing.T, run *ev.Run, prof *Profile, hist int, nOps int, mons 
 	id := fmt.Sprintf("%s/seed=%d/hist=%d", prof.Name, run.Seed, hist)
 	s := NewSim(t, seed, prof, mons(id)...)
 	s.BuildWorld()
+	if prof.Prologue != nil {
+		prof.Prologue(s)
+	}
 	s.Run(nOps)
 	run.Eval(1)
 	run.Count("ops", s.Step)
